@@ -13,7 +13,16 @@ func nums(n int, sep string) string { return seqs2(n, sep, itoa) }
 
 func tri(n int) int { return n * (n + 1) / 2 }
 
+var scaleFamsCache []*scaleFam
+
 func scaleFamilies() []*scaleFam {
+	if scaleFamsCache == nil {
+		scaleFamsCache = scaleFamiliesBuild()
+	}
+	return scaleFamsCache
+}
+
+func scaleFamiliesBuild() []*scaleFam {
 	all := append(scaleSchemas(), specialFamilies()...)
 	// families that exercise a sentence of two properties are run under both
 	for _, also := range [][2]string{{"a callee n frames below the function whose parameter it assigns", "C09"}, {"n pattern rules between a BEGIN and an END rule", "C07"}} {
@@ -385,7 +394,9 @@ func scaleSchemas() []*scaleFam {
 		}},
 		// ---------------------------------------------------------------- C03: input stream
 		{Prop: "C03", Name: "a stream of n top-level values", Max: 70000, QMax: 5000, Build: func(n int) scaleCase {
-			in := seqs2(n, " ", func(k int) string { return []string{itoa(k), "[" + itoa(k) + "]", "{\"v\": " + itoa(k) + "}", "\"" + itoa(k) + "\"", "null"}[k%5] })
+			in := seqs2(n, " ", func(k int) string {
+				return []string{itoa(k), "[" + itoa(k) + "]", "{\"v\": " + itoa(k) + "}", "\"" + itoa(k) + "\"", "null"}[k%5]
+			})
 			prog := "BEGINFILE { c++ }\nEND { print c }\n"
 			return scaleCase{Prog: prog, Files: []inFile{{Name: "in.json", Text: in}}, Want: itoa(n) + "\n", CLI: n%64 < 3 || n < 80}
 		}},
@@ -433,4 +444,3 @@ func imax(a, b int) int {
 	}
 	return b
 }
-
